@@ -85,6 +85,12 @@ type WriterCase struct {
 	PriorVia string   `json:"prior_via,omitempty"` // WriteFile | Writer
 	Chunks   [][]byte `json:"chunks"`
 	Bufs     []int    `json:"bufs"`
+	// Backup (with HasPrior): "backup" = the prior file is copied to <path>.orig with the
+	// filespace's own CopyFile before the stream write (backup, then rewrite); "from" = the prior
+	// content lives in <path>.orig and the target is a CopyFile of it. Either way <path>.orig must
+	// still hold the prior content afterwards (a copy that shares storage with its source shows
+	// here when the stream rewrites one of the two in place).
+	Backup string `json:"backup,omitempty"`
 }
 
 func genBytes(rt *rapid.T, label string) []byte {
@@ -146,6 +152,9 @@ func GenWriter(rt *rapid.T) WriterCase {
 		c.HasPrior, c.Prior = true, bytes.Repeat([]byte{'L'}, total+1+hx.Uniform(rt, 300, "pl"))
 	}
 	c.PriorVia = []string{"WriteFile", "Writer"}[hx.Uniform(rt, 2, "pv")]
+	if c.HasPrior {
+		c.Backup = []string{"", "", "backup", "from"}[hx.Uniform(rt, 4, "bk")]
+	}
 	return c
 }
 
@@ -191,6 +200,28 @@ func ExecWriter(c WriterCase) hx.Verdict {
 				}
 			} else if err := fs.WriteFile(c.Path, append([]byte{}, c.Prior...), filesystem.DefaultUnixFileMode); err != nil {
 				return hx.Fail("setup", "WriteFile prior: %v", err)
+			}
+			orig := c.Path + ".orig"
+			switch c.Backup {
+			case "backup":
+				if err := fs.CopyFile(c.Path, orig); err != nil {
+					return hx.Fail("setup", "[%s] CopyFile(%q,%q) of the prior file failed: %v", c.Backend, c.Path, orig, err)
+				}
+				v.Label("prior-backed-up-by-copyfile")
+			case "from":
+				if err := fs.CopyFile(c.Path, orig); err != nil {
+					return hx.Fail("setup", "[%s] CopyFile(%q,%q) failed: %v", c.Backend, c.Path, orig, err)
+				}
+				if err := fs.Remove(c.Path); err != nil {
+					return hx.Fail("setup", "[%s] Remove(%q) failed: %v", c.Backend, c.Path, err)
+				}
+				if err := fs.CopyFile(orig, c.Path); err != nil {
+					return hx.Fail("setup", "[%s] CopyFile(%q,%q) failed: %v", c.Backend, orig, c.Path, err)
+				}
+				v.Label("target-is-a-copyfile-copy")
+			}
+			if c.Backup != "" {
+				siblings[orig] = append([]byte{}, c.Prior...)
 			}
 			switch {
 			case len(c.Prior) > len(want):
